@@ -141,6 +141,78 @@ CHECKS = {
         "Known findings: C16-grid-pad-overrequest, C16-grid-constant-axis.",
    technique="Coq proofs with a choice oracle (subset/count/determinism) + vm_compute correspondence on binary and de-cythonised source",
    design="5/C16"),
+ "C06": dict(
+   text="Machine-checked proof (Coq 8.16.1) about a Gallina model of the ancillary-feature machinery (__contains__, "
+        "__getitem__, is_available with priorities, available_features, hash, sibling outputs, compute_emodulus "
+        "branching) over a recipe registry that a translator REGENERATES from /repo on every run by tracing what each "
+        "recipe's method actually reads: for every registry and history each cache slot holds its recipe's method "
+        "applied to the hashed ingredients; a read equals the read on an empty cache under stated guards; registry "
+        "completeness (uses within declares) by vm_compute over the generated table with the incomplete recipes "
+        "refuted by witnesses; emodulus precedence C > B > A over all key combinations. Tied by vm_compute "
+        "correspondence and a long-lived-vs-fresh dataset oracle.",
+   note="Trusted: Coq kernel+vm_compute; the tracing translator (harness/translators/anc_trace.py); md5 as identity on "
+        "the hashed item list; methods are functions of the values they read; numerics not modelled. Known findings: "
+        "C06-ctc-undeclared-crosstalk, C06-emodulus-available-unreadable, C06-emodulus-stale-viscosity, C06-cached-stays-listed.",
+   technique="Coq cache-coherence proof over histories + registry table regenerated from source (translator) checked by vm_compute + correspondence",
+   design="5/C06"),
+ "C11": dict(
+   text="Machine-checked proof (Coq 8.16.1) about a Gallina model of the nine metadata converters as written, key "
+        "validation (incl. online_filter/filtering pattern keys, ml_score features, user section), "
+        "ConfigurationDict.__setitem__/update, config-file entries, the h5py attribute layer and store_metadata + "
+        "parse_config, over the key/converter table that a translator REGENERATES from dclab.definitions on every run: "
+        "converter and assignment idempotence for all values, case-insensitivity, rejection of unknown/empty/None, "
+        "agreement of all setting routes, documented type and attribute round trip for every generated row.",
+   note="Trusted: Coq kernel+vm_compute; translator harness/translators/tables.py; h5py attribute layer modelled and "
+        "tied by correspondence; float(str)/repr/lower modelled for ASCII and multiples of 1/8; binary64 rounding not modelled.",
+   technique="Coq proofs over value representations + table regenerated from source (translator) swept by vm_compute + correspondence",
+   design="5/C11"),
+ "C12": dict(
+   text="Machine-checked proof (Coq 8.16.1) that every analysis entry point of the model (statistics, KDE scatter/"
+        "contour, quantile levels, downsampled scatter, tsv) is core o purge o select-mask with the estimators as "
+        "arbitrary Section variables: non-interference of excluded events, equality with the dataset restricted to "
+        "the selected events, disabled filtering uses all events; exact definitions over Z of events, mean, median, "
+        "mode bin, percentile brackets (with the one-event slack numpy's definition needs; the no-slack form is "
+        "refuted). PARTIAL: the estimators' numerics are differential testing against numpy/scipy reference estimators.",
+   note="Trusted: Coq kernel+vm_compute; estimator numerics NOT proved (reference estimators with stated tolerances); "
+        "model tied by correspondence and a three-dataset metamorphic oracle (filtered / restricted / adversarial values).",
+   technique="Coq non-interference proofs with abstract estimators + exact statistics definitions + metamorphic/differential correspondence",
+   design="5/C12"),
+ "C13": dict(
+   text="Machine-checked proof (Coq 8.16.1) about a Gallina model with one Boolean rule per violation-level check_* "
+        "method over an abstract file record built from raw h5py; the check inventory, levels and key tables are "
+        "REGENERATED from /repo's check.py by an ast translator and compared by vm_compute (fails closed on a new "
+        "method): files produced by the writer closure from complete consistent input have no violations; one "
+        "implication per cue named in the property for arbitrary unrelated content; same violations after a content-"
+        "preserving copy; order independence. Tied by correspondence over every write path and 36 corruption kinds.",
+   note="Trusted: Coq kernel+vm_compute; translator harness/translators/check_inventory.py; alert/info cues and message "
+        "texts not modelled; reader's defective-feature detection. Known findings: C13-fl-checks-need-flmax, "
+        "C13-export-subset-channel-count.",
+   technique="Coq decision-rule implications + inventory regenerated from source (ast translator) + correspondence with seeded corruptions",
+   design="5/C13"),
+ "C15": dict(
+   text="Machine-checked proof (Coq 8.16.1) about the crossing predicate that a translator REGENERATES from "
+        "_shared/geometry.pyx on every run (bridge lemma: generated predicate = cross-multiplied model predicate): "
+        "half-open rule equals parity of proper crossings in general position; perturbation characterisation off the "
+        "boundary; invariance under rotation, reversal, closing and repeated vertices; inversion is the complement; a "
+        "complete finite sweep against a winding-number evaluator; .poly save/load round trip in a character-level "
+        "model (partial, with refuting witnesses for names with blanks/line breaks).",
+   note="Trusted: Coq kernel+vm_compute; translators pnpoly_pyx.py and decythonize_geometry.py; NOT proved: independence "
+        "of the parity from the ray direction (finite sweep + oracle only) and binary64 rounding (points within 2^-40 "
+        "relative of an edge excluded); Cython missing: .pyx executed as de-cythonised Python next to the binary. "
+        "Known finding: C15-name-blanks.",
+   technique="Coq proofs about a predicate translated from the .pyx source (translator + bridge lemma) + correspondence on binary and de-cythonised source",
+   design="5/C15"),
+ "C17": dict(
+   text="Machine-checked proof (Coq 8.16.1): the repaired cache-key encoding (tagged, length-prefixed, dtype/shape/"
+        "argument counts) is injective and the old concatenation is refuted by concrete collisions; for any injective "
+        "key, any call/mutation history and any capacity the FIFO memo table returns the fresh value, stays bounded "
+        "and aligned; file-hash cache fresh under the (mtime_ns, size) hypothesis; LazyContourList and per-object "
+        "array caches fresh for all histories over a heap model with writable flags (aliasing refuted without the "
+        "read-only fix). Tied by correspondence incl. the bytes actually fed to md5.",
+   note="Trusted: Coq kernel+vm_compute; md5 collision-freeness (explicit hypothesis); memoised functions as oracles; "
+        "file system mtime behaviour (hypothesis, derived for a monotone clock).",
+   technique="Coq injectivity proof of the key encoding + memo-table invariant over call histories + correspondence on key bytes and hit patterns",
+   design="5/C17"),
 }
 
 def main():
